@@ -173,7 +173,7 @@ def plan(tier, seed):
     jobs_rows = []
     if tier == "quick":
         rows = list(gen.covering_rows(feats, 2, rnd, candidates=12))
-        rows += [gen.random_feat(rnd) for _ in range(1200)]
+        rows += [gen.random_feat(rnd) for _ in range(24000)]
         for r in rows:
             if r["ref"] == "valid":
                 r["ref"] = "none"
@@ -187,7 +187,7 @@ def plan(tier, seed):
             full["ref"] = rnd.choice(["none", "nearmiss"])
             rows.append(full)
         rows += list(gen.covering_rows(feats, 2, rnd, candidates=12))
-        extra = [gen.random_feat(rnd) for _ in range(60000)]
+        extra = [gen.random_feat(rnd) for _ in range(250000)]
         for r in extra:
             if r["ref"] == "valid":
                 r["ref"] = "none"
